@@ -357,6 +357,14 @@ def r5(ctx, P):
         ctx.ob("R5", key, merged, "the table flows into lang_globs::merge_globs" if merged else
                "the bare extension table is used without lang_globs::merge_globs: the walker's type filter no longer contains the languageGlobs of that language, so a tree walk "
                "skips files that scanning the file alone (language detection honours languageGlobs) processes", where=f.loc(c.line))
+    # …and between the walker and read_file nothing looks at a file's size or other metadata: `file_too_large` (bytes AND lines, on the
+    # content) is the only size criterion; a metadata-based skip in the entry filter drops files that read_file accepts, without counting them
+    META = re.compile(r"::(metadata|symlink_metadata)$|fs::Metadata::(len|size|modified|accessed|created|permissions)$|MetadataExt")
+    metas = [c for fid in sorted(P) for c in prog.fns[fid].calls if c.bb in prog.fns[fid].live_blocks and META.search(c.best)]
+    ctx.ob("R5", "producers do not look at file metadata", not metas,
+           "no metadata()/Metadata::len in producer-reachable cli code" if not metas else
+           "producer-side code reads file metadata (%s in %s): a size/date criterion applied before read_file skips files that scanning the file alone — and the library — process, and "
+           "the skipped file is not even counted" % (sorted({c.name for c in metas}), metas[0].fn.id), where=metas[0].fn.loc(metas[0].line) if metas else None)
     rf = ctx.anchor("R5", r"^ast_grep::utils::read_file$")
     tl = ctx.anchor("R5", r"^ast_grep::utils::file_too_large$")
     if rf and tl:
